@@ -84,7 +84,7 @@ def get_yaml_default_loader():
 
 
 def _has_reference_cycle(value, parents=()) -> bool:
-    if not isinstance(value, (dict, list)):
+    if not isinstance(value, (dict, list, tuple)):
         return False
     if any(value is p for p in parents):
         return True
